@@ -1,1 +1,78 @@
-From CG Require Import Spec.Sets.
+(* Props/C01.v — C01: set operators compute exact pointwise set algebra on covered time.
+   Statements only; each is closed by a lemma of Proofs/ and followed by Print Assumptions.
+   Operator level (the sweeps); the lift to whole expression trees is Proofs/Assembly.v. *)
+From CG Require Import Proofs.Defs Proofs.Compl Proofs.Merge Proofs.Diff Proofs.InterDisjoint
+     Proofs.Clip Proofs.Stored.
+
+(* union ( | ): heapq.merge yields every event of every operand exactly once; covered time is
+   the union — for ANY operand streams (overlapping, nested, duplicated, unbounded, unsorted) *)
+Theorem C01_union_cover : forall lt ss t,
+  covers (merge_by lt ss) t = existsb (fun s => covers s t) ss.
+Proof. exact covers_merge. Qed.
+Print Assumptions C01_union_cover.
+
+(* complement ( ~ ): any sorted source, overlapping/nested/duplicated/unbounded events *)
+Theorem C01_complement_cover : forall xs a b,
+  wf_win a b -> Forall wf_ivl xs -> sorted_start xs ->
+  forall t, bnd_lo a <= t < bnd_hi b -> covers (compl_sweep xs a b) t = negb (covers xs t).
+Proof. intros xs a b Hw Hf Hs. exact (proj2 (proj2 (compl_sweep_spec xs a b Hw Hf Hs))). Qed.
+Print Assumptions C01_complement_cover.
+
+(* difference ( - ): ARBITRARY subtractors (overlapping, nested, duplicated, unbounded);
+   the source stream must be internally non-overlapping — the boundary of known finding KF-D1 *)
+Theorem C01_difference_cover_partial : forall src subs,
+  Forall wf_ivl src -> disjoint_sorted src -> Forall wf_ivl subs -> sorted_start subs ->
+  forall t, covers (dsweep src subs) t = covers src t && negb (covers subs t).
+Proof. exact dsweep_cover. Qed.
+Print Assumptions C01_difference_cover_partial.
+
+(* ... and the hypothesis is necessary: the faithful model (and the code) leak subtracted time
+   as soon as the source holds two overlapping events *)
+Theorem C01_difference_overlap_refuted :
+  let src := [mkI (Some 0) (Some 10) Plain; mkI (Some 1) (Some 5) Plain] in
+  let subs := [mkI (Some 2) (Some 3) Plain] in
+  covers (dsweep src subs) 2 = true /\ covers src 2 && negb (covers subs 2) = false.
+Proof. exact overlapping_source_defect. Qed.
+Print Assumptions C01_difference_overlap_refuted.
+
+(* intersection ( & ), any number k >= 2 of operands, any emitter selection: covered time is the
+   intersection — operands internally non-overlapping (boundary of KF-D2 for events; for
+   coverage alone the check's oracle finds no failure on overlapping operands either) *)
+Theorem C01_intersection_cover_partial : forall streams sel,
+  (2 <= length streams)%nat ->
+  Forall (Forall wf_ivl) streams -> Forall disjoint_sorted streams ->
+  (exists i, (i < length streams)%nat /\ sel i = true) ->
+  forall t, covers (inter_sweep streams sel) t = forallb (fun l => covers l t) streams.
+Proof. exact inter_sweep_cover. Qed.
+Print Assumptions C01_intersection_cover_partial.
+
+(* the window: expr[a:b] = (expr & solid).fetch(a,b) clips every event of a sorted stream —
+   no hypothesis on the events (overlapping, nested, zero-length, unbounded) nor on the window *)
+Theorem C01_slice_clips : forall m xs a b t,
+  sorted_start xs ->
+  covers (inter_sweep [xs; [mkI a b Plain]] (emit_sel [m; true])) t = covers xs t && inw a b t.
+Proof. exact clip_sweep_covers. Qed.
+Print Assumptions C01_slice_clips.
+
+(* stored timelines hand every event meeting the window to the operators *)
+Theorem C01_stored_complete : forall store a b rv x,
+  sorted_key store = true -> In x store -> wf_ivl x -> overlaps_win a b x ->
+  In x (fetch_static store a b rv).
+Proof. exact fetch_static_complete. Qed.
+Print Assumptions C01_stored_complete.
+
+(* non-vacuity: nested, duplicated, touching, unbounded events satisfy the hypotheses *)
+Example C01_hypotheses_satisfiable :
+  let subs := [mkI None (Some 3) Plain; mkI (Some 1) (Some 9) (Rich 1); mkI (Some 2) (Some 4) (Rich 2);
+               mkI (Some 2) (Some 4) (Rich 2); mkI (Some 9) None Plain] in
+  let src := [mkI (Some 0) (Some 5) (Rich 7); mkI (Some 5) (Some 8) (Rich 8); mkI (Some 10) None (Rich 9)] in
+  Forall wf_ivl src /\ disjoint_sorted src /\ Forall wf_ivl subs /\ sorted_start subs.
+Proof.
+  cbv zeta. split; [|split; [|split]].
+  - repeat constructor; unfold wf_ivl, fstart, fend, NEG_INF, POS_INF; simpl; lia.
+  - simpl. unfold fstart, fend, POS_INF; simpl. repeat split; intros y Hy;
+      repeat (destruct Hy as [<-|Hy]; [simpl; lia|]); try contradiction.
+  - repeat constructor; unfold wf_ivl, fstart, fend, NEG_INF, POS_INF; simpl; lia.
+  - simpl. unfold fstart, NEG_INF; simpl. repeat split; intros y Hy;
+      repeat (destruct Hy as [<-|Hy]; [simpl; lia|]); try contradiction.
+Qed.
